@@ -206,7 +206,7 @@ def _torn(rng, uni):
         frag = lines[c:o2 + 1]
         uni["res"][url] = lines[:c] + [inc] + lines[o2 + 1:]
         uni["res"][target] = list(frag)
-        return True
+        return target
     if rng.random() < 0.5:
         # fragment opens the section and leaves it open
         frag = lines[o:c]
@@ -223,7 +223,7 @@ def _torn(rng, uni):
             ln["t"] = "%include " + ln["target"]
         moved.append(ln)
     uni["res"][target] = moved
-    return True
+    return target
 
 
 def _redefine(rng, uni, res, conflict):
@@ -331,7 +331,9 @@ def generate(rng, tier, index):
         else:
             plan["variant"] = "plain"
     elif variant == "torn-cut":
-        if _torn(rng, uni):
+        torn = _torn(rng, uni)
+        if torn:
+            plan["torn_url"] = torn
             res = TF.res_texts(uni)
         else:
             plan["variant"] = "plain"
@@ -438,6 +440,8 @@ def execute(plan):
                 out["probes"]["fragment-through-symlink"] = 1
         p2 = dict(plan)
         p2["missing"] = missing
+        if plan.get("torn_url"):
+            p2["torn_url"] = _to_real(plan["torn_url"], scratch)
         if plan.get("via"):
             p2["via"] = {k: _to_real(v, scratch)
                          for k, v in plan["via"].items()}
@@ -566,6 +570,18 @@ def _execute(plan, out, store, decoys_in, top, real, report_plan=None):
                 elif not oc.get("cfgerr"):
                     violation("non-config-error",
                               "cut load raised %s" % ops.brief(oc))
+                elif variant == "torn-cut" and plan.get("torn_url") \
+                        and oc.get("url") != plan["torn_url"]:
+                    # the inlined text is valid, so the first thing wrong in
+                    # reading order is the fragment that is not balanced on
+                    # its own: ITS parser refuses it (a stray closer, or its
+                    # end with a section still open).  A rejection reported
+                    # from any other resource means the fragment was let
+                    # through and something broke later by accident
+                    violation("torn-rejected-elsewhere",
+                              "the unbalanced fragment %s was not refused "
+                              "itself; the load failed later with %s"
+                              % (plan["torn_url"], ops.brief(oc)))
         # I/O history
         if oc["ok"]:
             if opened != expected:
